@@ -22,6 +22,8 @@ def term_str(c, factors):
 def eq_strings(case):
     if case.get("ops"):
         return [e for op in case["ops"] for e in op["equations"]]
+    if case.get("net"):
+        return [f"{nd['name']}: {e}" for nd in case["net"]["nodes"] for e in nd["equations"]] + [f"edge {a} -> {b} weight {w}" for a, b, w in case["net"]["edges"]]
     out = []
     for (s, _), terms in zip(case["states"], case["eqs"]):
         txt = ""
@@ -38,6 +40,11 @@ def build(case):
         ops = [OperatorTemplate(name=op["name"], equations=op["equations"], path=None,
                                 variables={k: (v if "(" in v else float(Fr(v))) for k, v in op["variables"]}) for op in case["ops"]]
         return CircuitTemplate(name="c", nodes={"p": NodeTemplate(name="n", operators=ops, path=None)})
+    if case.get("net"):      # two nodes with one operator each, connected by weighted edges (the weights become parameters)
+        mk = lambda nd: OperatorTemplate(name="op_" + nd["name"], equations=nd["equations"], path=None,
+                                         variables={k: (v if "(" in v else float(Fr(v))) for k, v in nd["variables"]})
+        nodes = {nd["name"]: NodeTemplate(name="n_" + nd["name"], operators=[mk(nd)], path=None) for nd in case["net"]["nodes"]}
+        return CircuitTemplate(name="c", nodes=nodes, edges=[(a, b, None, {"weight": float(Fr(w))}) for a, b, w in case["net"]["edges"]])
     vals = dict(case["states"]); pvals = dict(case["params"])
     variables = {}
     for name in case["decl"]:
@@ -71,8 +78,10 @@ def parse_f90(src, fname):
     obs["call_head"] = call[:3]
     obs["call"] = [int(re.fullmatch(r"args\((\d+)\)", a).group(1)) for a in call[3:]]
     st = src[src.index("subroutine stpnt"):src.index("end subroutine stpnt")]
-    obs["stpnt"] = [[int(k), str(Fr(v)), n] for k, v, n in re.findall(r"^\s*args\((\d+)\) = (\S+)\s+! (\S+)\s*$", st, re.M)]
-    obs["stpnt_y"] = [[int(k), str(Fr(v)), n] for k, v, n in re.findall(r"^\s*y\((\d+)\) = (\S+)\s+! (\S+)\s*$", st, re.M)]
+    lit = lambda v: str(Fr(float(re.sub(r"[dD]", "e", v))))   # the double that the literal text denotes (0.1, 1e-07, 0.1d0, 1d-07)
+    obs["stpnt"] = [[int(k), lit(v), n] for k, v, n in re.findall(r"^\s*args\((\d+)\) = (\S+)\s+! (\S+)\s*$", st, re.M)]
+    obs["stpnt_y"] = [[int(k), lit(v), n] for k, v, n in re.findall(r"^\s*y\((\d+)\) = (\S+)\s+! (\S+)\s*$", st, re.M)]
+    obs["stpnt_double_literals"] = all(re.search(r"[dD]", v) for _, v, _ in re.findall(r"^\s*(args|y)\(\d+\) = (\S+)\s+! (\S+)\s*$", st, re.M))
     obs["stpnt_lines"] = len([l for l in st.split("\n") if " = " in l])
     fn = src[src.index("subroutine func("):src.index("end subroutine func")]
     obs["dfdp"] = [[int(r), int(c)] for r, c in re.findall(r"^\s*dfdp\((\d+),(\d+)\) =", fn, re.M)]
@@ -158,6 +167,9 @@ def impl_slots(case):
         for l in case["requests"]:
             r, d = get_unique_label(l, d); out.append(r)
         return dict(out=out, table=[[k, v] for k, v in d.items()])
+    if case["kind"] == "replace":
+        from pyrates.backend.parser import replace
+        return dict(out=replace(case["eq"], case["term"], case["rep"], rhs_only=case["rhs"], lhs_only=case["lhs"]))
     from pyrates.backend.computegraph import ComputeGraph
     stub = types.SimpleNamespace(_node_names=dict(case["table"]))
     out = [ComputeGraph._generate_unique_label(stub, l) for l in case["requests"]]
@@ -271,6 +283,57 @@ def gen_chain(rng, cid, compile_=False, big=False):
                 overrides=({"NMX": 77} if rng.random() < 0.3 else {}), compile=compile_,
                 y_test=[str(Fr(rng.choice([-5, -3, 3, 5, 7]), 16)) for _ in states], par_test=[str(Fr(k + 3, 8)) for k in range(NPARX)])
 
+def gen_net(rng, cid, compile_=False, big=False):
+    """two nodes A (x' = ...) and B (z' = ..., optionally v') with one operator each; edge A/x -> B/u always, B/z -> A/q in half of the
+    cases.  Edge weights become parameters `weight`, `weight_v1` (label generator, nodes in circuit order).  Declaration order of the
+    circuit = for every node in circuit order: the weight of its incoming edge, then the variables of its operator in declaration order."""
+    n_a, n_b = rng.randint(1, 5), (rng.randint(6, 14) if big else rng.randint(1, 6))
+    names = rng.sample([p for p in POOL if p != "w"], n_a + n_b)
+    PA, PB = names[:n_a], names[n_a:]
+    back, two = rng.random() < 0.5, rng.random() < 0.4
+    states = ["x", "z"] + (["v"] if two else [])
+    val = lambda: str(Fr(rng.choice([k for k in range(-16, 17) if k and k != 8]), 8))      # a weight of exactly 1 is elided by the edge code
+    coef = lambda: rng.choice([1, 1, -1, 2, -3])
+    sv = {s_: val() for s_ in states}; pv = {p: val() for p in names}
+    w_a, w_b = ("weight", "weight_v1") if back else (None, "weight")
+    wv = {w_: val() for w_ in (w_a, w_b) if w_}
+    sname = lambda ys: [states[i] for i in ys]
+    def rows_for(P, own, inp, others):
+        """terms of one node: (coef, params, state indices, uses_input)"""
+        use = list(P); rng.shuffle(use)
+        rows = [[] for _ in own]; seen = set()
+        for i, p in enumerate(use):
+            r = rng.randrange(len(own))
+            t = (coef(), [p], rng.choice([[], [own[0]], [rng.choice(own)] * 2]), bool(inp) and rng.random() < 0.35)
+            key = (r, p, tuple(t[2]), t[3])
+            if key not in seen: seen.add(key); rows[r].append(t)
+        if inp: rows[0].append((coef(), [], [], True))
+        for r, o in enumerate(own): rows[r].append((-1, [], [o], False))
+        return rows
+    rows_a = rows_for(PA, [0], "q" if back else None, None)
+    rows_b = rows_for(PB, [1, 2] if two else [1], "u", None)
+    text = lambda lhs, rows, inp: (lhs + " =" + "".join(term_str(c, ps + ([inp] if ui else []) + sname(ys)) for c, ps, ys, ui in rows)).replace("= + ", "= ").replace("=  - ", "= -")
+    fl = lambda s_: repr(float(Fr(s_)))
+    def variables(ps, special):
+        items = [(p, pv[p]) for p in ps]
+        for nm_, spec in special:
+            items.insert(rng.randrange(len(items) + 1), (nm_, spec))
+        return [[k, v] for k, v in items]
+    node_a = dict(name="A", equations=[text("x'", rows_a[0], "q")],
+                  variables=variables(PA, [("x", f"output({fl(sv['x'])})")] + ([("q", "input(0.0)")] if back else [])))
+    node_b = dict(name="B", equations=[text("z'", rows_b[0], "u")] + ([text("v'", rows_b[1], "u")] if two else []),
+                  variables=variables(PB, [("z", f"output({fl(sv['z'])})"), ("u", "input(0.0)")] + ([("v", f"variable({fl(sv['v'])})")] if two else [])))
+    edges = [["A/op_A/x", "B/op_B/u", wv[w_b]]] + ([["B/op_B/z", "A/op_A/q", wv[w_a]]] if back else [])
+    flat = lambda rows, w_, src: [[[c, ps + ([w_] if ui else []), sorted(ys + ([src] if ui else []))] for c, ps, ys, ui in row] for row in rows]
+    eqs = flat(rows_a, w_a, 1) + flat(rows_b, w_b, 0)
+    decl = ([w_a] if back else []) + [k for k, _ in node_a["variables"]] + [w_b] + [k for k, _ in node_b["variables"]]
+    pv.update(wv)
+    scen = rng.choice([None, None, ["eq"], ["ivp", "lc"]])
+    return dict(id=str(cid), net=dict(nodes=[node_a, node_b], edges=edges), decl=decl, states=[[s_, sv[s_]] for s_ in states],
+                params=[[k, pv[k]] for k in decl if k in pv], eqs=eqs, scenarios=scen, scen_as_str=False,
+                overrides=({"NMX": 77} if rng.random() < 0.3 else {}), compile=compile_,
+                y_test=[str(Fr(rng.choice([-5, -3, 3, 5, 7]), 16)) for _ in states], par_test=[str(Fr(k + 3, 8)) for k in range(NPARX)])
+
 def used_params(case):
     """parameters in order of first use (with repetitions), as a guess of the equation-walk order"""
     return [p for terms in case["eqs"] for _, ps, _ in terms for p in ps]
@@ -322,10 +385,19 @@ Definition guard_f32 (c : case) := let '(vars, m, o) := c in all_values_f32_exac
 IMPL_ON = ("From PV Require Import AutoImpl.", "Definition okI := ok_with (fun _ m => emit m) compiled_stpnt (fun _ m => exported_vf (emit m)).")
 # when the E2 translation failed closed (or Auto/AutoImpl no longer compile) there is no Impl to evaluate: Spec only
 IMPL_OFF = ("", "Definition okI (c : case) := true.")
+def fixed_stpnt():
+    """the model switch Auto.fixed_stpnt (or C18_FIXED_STPNT=1 to try the repaired code before the switch is flipped)"""
+    m = re.search(r"Definition fixed_stpnt : bool := (true|false)\.", open(os.path.join(COQ, "theories", "Auto.v")).read())
+    return (m is not None and m.group(1) == "true") or os.environ.get("C18_FIXED_STPNT") == "1"
+
 def header(ctx):
     off = ctx.proof and set(ctx.proof["failed"]) & set(IMPL_FILES)
     a, b = IMPL_OFF if off else IMPL_ON
-    return HEADER.replace("IMPL_IMPORT", a).replace("IMPL_OK", b)
+    h = HEADER.replace("IMPL_IMPORT", a).replace("IMPL_OK", b)
+    if fixed_stpnt():          # repaired code: STPNT values are exact for every value, the guard is dropped
+        h = h.replace("ok_with (fun _ m => emit m) compiled_stpnt", "ok_with (fun _ m => emit m) spec_stpnt")
+        h = h.replace("let '(vars, m, o) := c in all_values_f32_exact m.", "true.")
+    return h
 
 def cpair(a, b): return f"({a}, {b})"
 def emission_term(o, f):
@@ -341,7 +413,7 @@ def coq_case(case, o):
     over = [(k, v) for k, v in case["overrides"].items() if k in ("NDIM", "NPAR")]
     m = ("{| m_events := %s; m_args := %s; m_ret := %s; m_states := %s; m_val := %s; m_dfdp := %s; m_over := %s |}" % (
         clist([cstr(v) for v in case["decl"] + ["t", "y"]]), clist([cstr(v) for v in ["dy"] + used_params(case)]), cstr("dy"),
-        clist([cstr(s) for s, _ in case["states"]]), clist([cpair(cstr(k), cq(v)) for k, v in case["states"] + case["params"]]),
+        clist([cstr(s) for s, _ in case["states"]]), clist([cpair(cstr(k), cq(Fr(float(Fr(v))))) for k, v in case["states"] + case["params"]]),
         clist([cpair(cnat(r), cstr(p)) for r, p in dfdp_entries(case)]), clist([cpair(cstr(k), cz(v)) for k, v in over])))
     qs = lambda l: clist([cq(v) for v in l])
     stp = vf = "None"
@@ -455,7 +527,7 @@ def shrink(ctx, case):
                 return True
         return False
     attempt(dict(best, scenarios=None, overrides={}, scen_as_str=False))
-    if best.get("ops"):
+    if best.get("ops") or best.get("net"):
         return best
     def truncated(c, k):
         drop = {p for p, _ in c["params"][k:]}
@@ -481,6 +553,7 @@ E2_GEN
 Definition ok_closed (c : nat * (Z * Z) * list Z) := let '(n, r, out) := c in zl_eqb (slots n) out.
 E2_LAB
 E2_LB2
+E2_REPL
 """
 
 E2_GEN = ("From PVG Require Import Gen_auto_param_indices.",
@@ -490,18 +563,23 @@ E2_LAB2 = ("From PVG Require Import Gen_get_unique_label.",
            "  match get_unique_label l tab with None => None | Some (r, t1) =>\n  match requests2 t1 ls' with None => None | Some (rs, t2) => Some (r :: rs, t2) end end end.\n"
            "Definition ok_lab2 (c : dict * list string * list string * list string) := let '(tab, req, out, keys) := c in\n"
            "  match requests2 tab req with Some (rs, tab') => sl_eqb rs out && sl_eqb (py_keys tab') keys | None => false end.")
+E2_REP = ("From PVG Require Import Gen_replace.",
+          "Definition ok_rep (c : string * string * string * bool * bool * string) := let '(e, t, r, rh, lh, o) := c in\n"
+          "  match Gen_replace.replace e t r rh lh with Some x => String.eqb x o | None => false end.")
 E2_LAB = ("From PVG Require Import Gen_generate_unique_label.\nFrom PV Require Import LabelGen.",
           "Definition ok_lab (c : dict * list string * list string * list string) := let '(tab, req, out, keys) := c in\n"
           "  match requests tab req with Some (rs, tab') => sl_eqb rs out && sl_eqb (py_keys tab') keys | None => false end.")
 
 def header_e2(ctx):
-    ok, failed, log = build_coq(["LabelGen", "Gen_get_unique_label"])   # LabelGen.v = Gen_generate_unique_label + the request state machine
+    ok, failed, log = build_coq(["LabelGen", "Gen_get_unique_label", "Gen_replace"])   # LabelGen.v = Gen_generate_unique_label + the request state machine
     lab2 = not any(f.endswith("Gen_get_unique_label.v") for f in failed)
-    lab = not [f for f in failed if not f.endswith("Gen_get_unique_label.v")]
-    if not (lab and lab2):
+    repl = not any(f.endswith("Gen_replace.v") for f in failed)
+    lab = not [f for f in failed if not f.endswith(("Gen_get_unique_label.v", "Gen_replace.v"))]
+    if not (lab and lab2 and repl):
         ctx.note(f"E2: label generators not available for validation (failed: {[os.path.basename(f) for f in failed]})")
     gen = not (ctx.proof and set(ctx.proof["failed"]) & {"Gen_auto_param_indices", "PyLib", "Auto"})
-    h = HEADER_E2.replace("E2_IMPORT", (E2_GEN[0] if gen else "") + "\n" + (E2_LAB[0] if lab else "") + "\n" + (E2_LAB2[0] if lab2 else ""))
+    h = HEADER_E2.replace("E2_IMPORT", (E2_GEN[0] if gen else "") + "\n" + (E2_LAB[0] if lab else "") + "\n" + (E2_LAB2[0] if lab2 else "") + "\n" + (E2_REP[0] if repl else ""))
+    h = h.replace("E2_REPL", E2_REP[1] if repl else "Definition ok_rep (c : string * string * string * bool * bool * string) := true.")
     h = h.replace("E2_LB2", E2_LAB2[1] if lab2 else "Definition ok_lab2 (c : dict * list string * list string * list string) := true.")
     h = h.replace("E2_GEN", E2_GEN[1] if gen else "Definition ok_gen (c : nat * (Z * Z) * list Z) := true.")
     return h.replace("E2_LAB", E2_LAB[1] if lab else "Definition ok_lab (c : dict * list string * list string * list string) := true.")
@@ -533,6 +611,10 @@ def e2_streams(ctx):
             if s != "t": tab[s] = rng.randint(0, 3)
         cases.append(dict(kind=rng.choice(["labels", "labels", "labels2"]), table=[[k, v] for k, v in tab.items()],
                           requests=[rng.choice(stems) for _ in range(rng.randint(1, 9))]))
+    for _ in range(60):      # parser.replace vs Gen_replace (term non-empty: the empty term does not terminate on either side)
+        cases.append(dict(kind="replace", eq="".join(rng.choice("rx=+ (1_") for _ in range(rng.randint(0, 12))),
+                          term="".join(rng.choice("rx1") for _ in range(rng.randint(1, 2))), rep=rng.choice(["X", "yy", "", "r"]),
+                          rhs=rng.random() < 0.3, lhs=rng.random() < 0.2))
     outs = run_impl(ctx, "c18", "impl_slots", cases, nworkers=1)
     sl = [(c, o) for c, o in zip(cases, outs) if c["kind"] == "slots" and "err" not in o]
     lb = [(c, o) for c, o in zip(cases, outs) if c["kind"] == "labels" and "err" not in o]
@@ -543,13 +625,17 @@ def e2_streams(ctx):
     l2 = [(c, o) for c, o in zip(cases, outs) if c["kind"] == "labels2" and "err" not in o]
     labterm = lambda pairs: clist([f"({clist([cpair(cstr(k), cz(v)) for k, v in c['table']])}, {clist([cstr(s) for s in c['requests']])}, "
                                    f"{clist([cstr(s) for s in o['out']])}, {clist([cstr(k) for k, _ in o['table']])})" for c, o in pairs])
+    rp = [(c, o) for c, o in zip(cases, outs) if c["kind"] == "replace" and "err" not in o]
+    b_ = lambda x: "true" if x else "false"
+    t3 = clist([f"({cstr(c['eq'])}, {cstr(c['term'])}, {cstr(c['rep'])}, {b_(c['rhs'])}, {b_(c['lhs'])}, {cstr(o['out'])})" for c, o in rp])
     T = "list (dict * list string * list string * list string)"
     body = (f"Definition s := {t1}.\nDefinition l : {T} := {t2}.\nDefinition l2 : {T} := {labterm(l2)}.\nEval vm_compute in (mismatches ok_gen s).\n"
-            "Eval vm_compute in (mismatches ok_closed s).\nEval vm_compute in (mismatches ok_lab l).\nEval vm_compute in (mismatches ok_lab2 l2).\n")
+            "Eval vm_compute in (mismatches ok_closed s).\nEval vm_compute in (mismatches ok_lab l).\nEval vm_compute in (mismatches ok_lab2 l2).\n"
+            f"Definition r3 : list (string * string * string * bool * bool * string) := {t3}.\nEval vm_compute in (mismatches ok_rep r3).\n")
     ls = parse_nat_lists(coq_eval(ctx, "c18_e2", header_e2(ctx), body))
-    assert len(ls) == 4, ls
+    assert len(ls) == 5, ls
     crashed = [c for c, o in zip(cases, outs) if "err" in o]
-    bad_tr = [sl[i][0] for i in ls[0]] + [lb[i][0] for i in ls[2]] + [l2[i][0] for i in ls[3]] + crashed
+    bad_tr = [sl[i][0] for i in ls[0]] + [lb[i][0] for i in ls[2]] + [l2[i][0] for i in ls[3]] + [rp[i][0] for i in ls[4]] + crashed
     bad_cf = [(sl[i][0], sl[i][1]) for i in ls[1] if i in dflt]
     dup = [c for c, o in lb if len([r for r in o["out"] if r != "t"]) != len({r for r in o["out"] if r != "t"})]
     return cases, bad_tr, bad_cf, dup
@@ -582,6 +668,9 @@ def check(ctx):
         k = len(cases)                                           # nodes of three operators with an algebraic-only operator in the middle
         n_chain, n_chain_comp = (max(1, int(300 * scale)), max(1, int(40 * scale))) if thorough else (24, 2)
         cases += [gen_chain(ctx.rng, k + i, compile_=i < n_chain_comp, big=i % 4 == 3) for i in range(n_chain)]
+        k = len(cases)                                           # two nodes with edges: the edge weights are parameters
+        n_net, n_net_comp = (max(1, int(250 * scale)), max(1, int(30 * scale))) if thorough else (16, 2)
+        cases += [gen_net(ctx.rng, k + i, compile_=i < n_net_comp, big=i % 4 == 3) for i in range(n_net)]
         k = len(cases)
         if not thorough:
             cases += [gen_case(ctx.rng, k + i, n=n, compile_=True) for i, n in enumerate([3, 9, 10, 12, 17, 25][:n_comp])]
@@ -629,12 +718,14 @@ def check(ctx):
     hist = dict(parameter_counts=sorted({len(c["params"]) for c in cases}), crossing_reserved_range=sum(1 for c in cases if len(set(used_params(c))) >= 10),
                 compiled=sum(1 for c in cases if c["compile"]), with_unused_parameters=sum(1 for c in cases if len(set(used_params(c))) < len(c["params"])),
                 scenario_sets=sorted({str(c["scenarios"]) for c in cases}), with_overrides=sum(1 for c in cases if c["overrides"]),
-                guard_violating=len(f32_false), e2_validation_calls=len(e2_cases), three_operator_nodes=sum(1 for c in cases if c.get("ops")))
+                guard_violating=len(f32_false), e2_validation_calls=len(e2_cases), three_operator_nodes=sum(1 for c in cases if c.get("ops")),
+                two_node_circuits=sum(1 for c in cases if c.get("net")))
     write_evidence(ctx, evaluations=len(cases) + len(e2_cases), distinct_nontrivial=len(nt),
                    rule="scalar models with 0-25 parameters (dyadic values, polynomial right-hand sides): (a) one operator, 1-3 state variables, random declaration "
                         "order (state variables interleaved), shuffled order of first use, unused parameters; (b) nodes of three operators src -> alg -> dyn where alg is "
                         "ALGEBRAIC ONLY and uses its >= 2 parameters in an order different from their declaration (declaration order of the model = operators in node "
-                        "order, variables in declaration order within each); scenario selections and constant overrides; "
+                        "order, variables in declaration order within each); (c) circuits of two nodes with weighted edges A->B (and B->A): the edge weights are parameters "
+                        "(declaration order = per node in circuit order: weight of its incoming edge, then its operator's variables); scenario selections and constant overrides; "
                         "non-trivial = at least 10 parameters are used (slots cross the reserved range) or the order of first use differs from the "
                         "declaration order; distinct = distinct canonical JSON",
                    samples=[dict(equations=eq_strings(c), decl=c["decl"], scenarios=c["scenarios"], overrides=c["overrides"]) for c in cases[1:3]],
